@@ -260,3 +260,71 @@ func VerifShardFileTransfer() {
 		vassert("after-the-retry-the-file-is-only-at-the-destination-and-identical", !srcOk2 && dstOk2 && sameBytes(dst2, content))
 	}
 }
+
+// ---- C14(3): the whole shard phase of the start-up synchronisation: syncShards walks the shard
+// directory of this node, decides the owner of every shard by rendezvous hashing (symbolic: every
+// assignment of the shards to the two servers) and moves the shards it does not own. Afterwards
+// every shard file is exactly on its owner, byte-identical; with one transport fault nothing is
+// lost and a second fault-free run completes the move.
+func VerifSyncShardsWalk() {
+	rootA, rootB := "/a", "/b"
+	if !vsymbolic() {
+		d, err := os.MkdirTemp("", "verifsyncwalk")
+		if err != nil {
+			panic(err)
+		}
+		defer os.RemoveAll(d)
+		rootA, rootB = d+"/a", d+"/b"
+	}
+	servers := []string{"A", "B"}
+	a, b := syncNode("A", servers), syncNode("B", servers)
+	a.cfg.ShardManager.RootDir, b.cfg.ShardManager.RootDir = rootA, rootB
+	verifNodes = map[string]*ClusterNode{"A": a, "B": b}
+	defer func() { verifNodes, verifRouteFault = nil, nil }()
+	nshards := vparam("SHARDS", 2)
+	names := []string{"shard1", "shard2", "shard3"}[:nshards]
+	cols := []string{"/u/c/", "/u/d/", "/v/c/"}
+	contents := make([][]byte, nshards)
+	owners := make([]string, nshards)
+	for i, n := range names {
+		contents[i] = nondetBytes(nondetIntRange(1, vparam("SIZE", 3)))
+		vwritefile(rootA+"/"+USERCOLSDIR+cols[i]+n+"/sharddb.bbolt", contents[i])
+		owners[i] = RendezvousHash(n, servers, 1)[0] // symbolic hash: both owners are explored
+	}
+	faultAt := nondetIntRange(-1, vparam("CHUNKS", 2))
+	calls := 0
+	verifRouteFault = func(fn, dest string) int {
+		k := calls
+		calls++
+		if k == faultAt {
+			return nondetIntRange(1, 2)
+		}
+		return 0
+	}
+	err := a.syncShards()
+	vcover("reached")
+	faulted := faultAt >= 0 && calls > faultAt
+	if !faulted {
+		vassert("fault-free-shard-sync-succeeds", err == nil)
+	}
+	check := func(final bool) {
+		for i, n := range names {
+			rel := "/" + USERCOLSDIR + cols[i] + n + "/sharddb.bbolt"
+			src, srcOk := vreadfile(rootA + rel)
+			dst, dstOk := vreadfile(rootB + rel)
+			vassert("a-shard-is-never-lost", (srcOk && sameBytes(src, contents[i])) || (dstOk && sameBytes(dst, contents[i])))
+			if owners[i] == "A" {
+				vassert("own-shards-stay-where-they-are", srcOk && sameBytes(src, contents[i]) && !dstOk)
+			} else if final {
+				vassert("foreign-shard-is-exactly-on-its-owner", !srcOk && dstOk && sameBytes(dst, contents[i]))
+			}
+		}
+	}
+	check(!faulted && err == nil)
+	if faulted || err != nil {
+		verifRouteFault = nil
+		err2 := a.syncShards()
+		vassert("later-shard-sync-succeeds", err2 == nil)
+		check(true)
+	}
+}
